@@ -358,6 +358,10 @@ func (s *arrayStub) UnmarshalJSON(data []byte) error {
 	if err != nil {
 		return err
 	}
+	if _, ok := s.v.(interface{ DisallowUnknownFields() }); ok {
+		// The target asks for strict decoding; honour it here too.
+		return (&strictStub{v: s.v}).UnmarshalJSON(actual)
+	}
 	return json.Unmarshal(actual, s.v)
 }
 
